@@ -56,12 +56,31 @@ CHECKS["C01"] = (
 NOT_CLAIMED = {}
 
 
+def module_entry(pid):
+    """Property modules may carry their own manifest texts (TECHNIQUE, LEVEL_TEXT, LEVEL_NOTE)."""
+    import ast
+
+    path = os.path.join(V, "props", pid.lower() + ".py")
+    if not os.path.exists(path):
+        return None
+    vals = {}
+    for node in ast.parse(open(path).read()).body:
+        if isinstance(node, ast.Assign) and len(node.targets) == 1 and isinstance(node.targets[0], ast.Name):
+            if node.targets[0].id in ("TECHNIQUE", "LEVEL_TEXT", "LEVEL_NOTE"):
+                vals[node.targets[0].id] = ast.literal_eval(node.value)
+    if len(vals) == 3:
+        return (vals["TECHNIQUE"], vals["LEVEL_TEXT"], vals["LEVEL_NOTE"], f"DESIGN.md §4 {pid}")
+    return None
+
+
 def main():
     props = [json.loads(l) for l in open(os.path.join(V, "properties.jsonl"))]
     checks, na = [], []
     for p in props:
         pid = p["id"]
         have = os.path.exists(os.path.join(V, "props", pid.lower() + ".py"))
+        if pid not in CHECKS and have and module_entry(pid):
+            CHECKS[pid] = module_entry(pid)
         if pid in NOT_CLAIMED or not have or pid not in CHECKS:
             na.append(dict(property_id=pid, reason=NOT_CLAIMED.get(pid, "check not built yet (work in progress; planned in DESIGN.md §4)")))
             continue
